@@ -484,7 +484,7 @@ func lifecycle(c *harness.Ctx) {
 			check("fresh", recs)
 			// refresh outcomes that must not wipe what is known
 			old := append([]rec{}, recs...)
-			outcome := []string{"validators-empty", "validators-error", "accounts-empty", "accounts-empty-while-records-change"}[r.Intn(4)]
+			outcome := []string{"validators-empty", "validators-error", "accounts-empty", "accounts-empty-while-records-change", "account-dropped-while-validators-error"}[r.Intn(5)]
 			switch outcome {
 			case "validators-empty":
 				e.beacon.mu.Lock()
@@ -515,6 +515,25 @@ func lifecycle(c *harness.Ctx) {
 					check(outcome, recs)
 					wallets["W"].Accts = list
 				}
+			case "account-dropped-while-validators-error":
+				// the signer no longer lists one account (the rest are still there) and the beacon node cannot be asked:
+				// the validator records of before are kept, and the account that is gone is not reported by any query
+				drop := r.Intn(nAcc)
+				var kept []e2wtypes.Account
+				for k, a := range list {
+					if k != drop {
+						kept = append(kept, a)
+					}
+				}
+				wallets["W"].Accts = kept
+				e.beacon.mu.Lock()
+				e.beacon.mode = "error"
+				e.beacon.mu.Unlock()
+				e.refresh([]string{"W"})
+				without := append([]rec{}, old...)
+				without[drop].Known = false
+				check(outcome, without)
+				wallets["W"].Accts = list
 			case "accounts-empty":
 				if kind == "dirk" { // the statement is about the remote signer
 					wallets["W"].Accts = nil
